@@ -419,13 +419,22 @@ def check_plumbing(ctx, R="C17.plumbing"):
             continue
         n_req += 1
         arg = c.args[2]
-        if isinstance(arg, ast.Name):
-            defs = [a for a in walk_local(sc) if isinstance(a, ast.Assign) and len(a.targets) == 1 and isinstance(a.targets[0], ast.Name) and a.targets[0].id == arg.id]
-            if len(defs) != 1:
-                raise AnalysisError(f"shape not recognised: definitions of `{arg.id}` in {sc.name}")
-            arg = defs[0].value
-        while isinstance(arg, ast.Call) and dotted(arg.func) in ("tuple", "list") and len(arg.args) == 1:
-            arg = arg.args[0]
+        def _resolve(e):
+            for _ in range(8):
+                if isinstance(e, ast.Name):
+                    defs = [a for a in walk_local(sc) if isinstance(a, ast.Assign) and len(a.targets) == 1 and isinstance(a.targets[0], ast.Name) and a.targets[0].id == e.id]
+                    if len(defs) != 1:
+                        raise AnalysisError(f"shape not recognised: definitions of `{e.id}` in {sc.name}")
+                    e = defs[0].value
+                elif isinstance(e, ast.Call) and dotted(e.func) in ("tuple", "list") and len(e.args) == 1:
+                    e = e.args[0]
+                else:
+                    break
+            return e
+
+        arg = _resolve(arg)
+        if isinstance(arg, ast.Call) and dotted(arg.func) == "filter" and len(arg.args) == 2:
+            arg = ast.Call(func=arg.func, args=[_resolve(arg.args[0]), arg.args[1]], keywords=[])
         pred = var = None
         if isinstance(arg, ast.Attribute):
             ctx.ok(R, c, f"{dotted(c.func)}: every object `{unparse(arg)}` is a candidate occluder")
